@@ -4,6 +4,7 @@
 import YangVerif.Proofs.Data
 import YangVerif.Props.C03
 import YangVerif.Model.EntryKey
+import YangVerif.Proofs.Find
 set_option linter.unusedSimpArgs false
 namespace YangVerif.C18
 open YangVerif.Data
@@ -72,6 +73,54 @@ theorem step_preserves_unique_keys (ks : List Schema) (body : List Data) (op : O
 theorem unique_keys_after_any_history (ks : List Schema) (ops : List Op) (body : List Data)
     (hops : ∀ op ∈ ops, op.wf ks = true) (h : Inv ks body) :
     Inv ks (ops.foldl (step ks) body) := history_preserves ks ops body hops h
+
+/-- **after every history every node is still found under its own address**: whatever sequence of inserts,
+    upserts, updates, replaces and deletes was applied, Find (Model/Find: schema check + walk) of the address of
+    any node of the resulting tree — a container, a list, an entry at any depth, a leaf — returns exactly that
+    node, never another entry of the same list -/
+theorem find_exact_after_any_history (ks : List Schema) (ops : List Op) (body : List Data)
+    (hops : ∀ op ∈ ops, op.wf ks = true) (h : Inv ks body)
+    (p : List Find.Seg) (l : Find.Loc) (hr : Find.Reach ks (ops.foldl (step ks) body) p l) :
+    Find.find ks (ops.foldl (step ks) body) p = .found l := by
+  have hinv := history_preserves ks ops body hops h
+  unfold Find.find
+  rw [Find.reach_check hr]
+  exact Find.reach_walk hr hinv.2
+
+/-- … and a deleted entry is not found any more, by the whole path: after `delRow i k` on a list with unique
+    keys no address through that entry names anything (Find gives "nothing there", never another entry) -/
+theorem deleted_entry_unreachable (ks : List Schema) (body : List Data) (i n : Nat) (lks : List Schema)
+    (rows : List (Key × List Data)) (k : Key) (hk : k ≠ [])
+    (hs : ks[i]? = some (.list n lks)) (hb : body[i]? = some (.list rows))
+    (hu : uniqueKeysBody body = true) (rest : List Find.Seg) :
+    ∀ l, Find.walk ks (deleteRow i k body) (⟨i, k⟩ :: rest) ≠ .found l := by
+  intro l
+  unfold deleteRow
+  have hnd : (keysOf rows).Nodup := (Find.unique_list body i rows hb hu).1
+  have hfr := findRow_removeRow_self k rows hnd
+  have hget : (body.set i (.list (removeRow k rows)))[i]? = some (.list (removeRow k rows)) := by
+    have hlt : i < body.length := by
+      rcases Nat.lt_or_ge i body.length with h | h
+      · exact h
+      · simp [List.getElem?_eq_none h] at hb
+    simp [List.getElem?_set, hlt]
+  simp only [hb, Find.walk, hget, hs]
+  cases hrr : removeRow k rows with
+  | nil => simp
+  | cons r rs =>
+    have hke : k.isEmpty = false := by cases k with | nil => exact absurd rfl hk | cons _ _ => rfl
+    rw [hrr] at hfr
+    simp [hke, hfr]
+
+/-! non-vacuity of the two statements above: a list of two entries, the first deleted; the second is found by its
+    key, the first is not -/
+example :
+    let ks : List Schema := [.list 1 [.leaf none, .leaf none]]
+    let b : List Data := [.list [(["a"], [.leaf (some "a"), .leaf (some "1")]), (["b"], [.leaf (some "b"), .leaf none])]]
+    Inv ks b ∧ (Op.delRow 0 ["a"]).wf ks = true ∧
+    (match Find.find ks ([Op.delRow 0 ["a"]].foldl (step ks) b) [⟨0, ["b"]⟩] with | .found (.body _ [.leaf (some "b"), _]) => true | _ => false) = true ∧
+    (match Find.find ks ([Op.delRow 0 ["a"]].foldl (step ks) b) [⟨0, ["a"]⟩] with | .none => true | _ => false) = true := by
+  refine ⟨⟨by decide, by decide⟩, by decide, by decide, by decide⟩
 
 /-- each entry is found under the key it was stored with (lookup and enumeration agree) -/
 theorem indexed_by_own_key (rows : List (Key × List Data)) (k : Key) (b : List Data)
